@@ -754,6 +754,7 @@ func init() {
 			return r
 		},
 		"github.com/yandex/mysync/internal/util.RunParallel": runParallelModel,
+		"github.com/yandex/mysync/internal/app.getNodeStatesInParallel": nodeStatesInParallelModel,
 		"github.com/yandex/mysync/internal/util.FilterStrings": filterStringsModel,
 		"math.Floor": func(f *Frame, ins ssa.Instruction, call *ssa.CallCommon, ct *callTarget, st *State) Value {
 			return mk("to_real", sortReal, mk("to_int", sortInt, T(f, ct, st, 0)))
